@@ -132,5 +132,28 @@ def run(prop, tier, repo, outdir, seed):
     return out
 
 
+REPLAY_BINS = {
+    "C05": [("c05_stall", [])],
+    "C04": [("c04_empty", [])],
+    "C18": [("c18_pops", ["--features", "hooks"])],
+}
+
+
 def replay_search(prop, oid, v, repo, outdir):
+    """Best-effort search for a concrete failing input on the REAL crate (never decides a property)."""
+    bins = REPLAY_BINS.get(prop, [])
+    if not bins:
+        return None
+    crate = _crate_for(repo, "replay", outdir)
+    tdir = os.path.join(VERIF, "replay", "target") if repo == "/repo" else os.path.join(outdir, "replay_target")
+    for name, extra in bins:
+        cmd = ["cargo", "run", "--offline", "--quiet", "--target-dir", tdir, "--bin", name] + extra
+        try:
+            r = subprocess.run(cmd, cwd=crate, env=ENV, capture_output=True, text=True, timeout=900)
+        except subprocess.TimeoutExpired:
+            continue
+        out = r.stdout + r.stderr
+        if r.returncode == 1 and "VIOLATION" in out:
+            return {"kind": "native-replay", "cmd": "cd " + crate + " && CARGO_NET_OFFLINE=true " + " ".join(cmd),
+                    "output": "\n".join(l for l in out.splitlines() if "VIOLATION" in l or l.startswith("OK"))[:2000]}
     return None
